@@ -34,7 +34,8 @@ CONSTANTS
   BugDropServiceReadAhead \* what the service sent right behind its upgrade reply (read ahead with it) is thrown away
 
 (* request kinds the client sends; svc: which service owns the interface ("A", "B") or "R" for service-info queries *)
-Kinds == {"ok", "stream", "oneway", "error", "closing", "upgrade", "getinfo"}
+\* "descr": org.varlink.service.GetInterfaceDescription for the interface of service svc (goes to the service that has it)
+Kinds == {"ok", "stream", "oneway", "error", "closing", "upgrade", "getinfo", "descr"}
 Req(k, svc) == [k |-> k, svc |-> svc]
 
 \* replies a service sends for one request: sequence of [cont]; closes: the service closes its connection afterwards
@@ -46,6 +47,7 @@ Replies(r) ==
     [] r.k = "closing" -> <<FALSE>>          \* e.g. ill-typed parameters: InvalidParameter, then the service hangs up
     [] r.k = "upgrade" -> <<FALSE>>
     [] r.k = "getinfo" -> <<FALSE>>
+    [] r.k = "descr" -> <<FALSE>>
 ServiceCloses(r) == r.k = "closing"
 
 VARIABLES
